@@ -14,7 +14,8 @@
 //
 //	OrderFree    the body only deletes, writes m2[key] = ..., accumulates integers with commutative
 //	             operators, sets flags to constants, under side-effect-free conditions;
-//	CollectSort  the body only appends to slices, each of which is sorted later in the function before use;
+//	CollectSort  the body only appends to slices, each of which is sorted before use on every path: the first statement
+//	             after the loop that mentions the slice (outside len/cap) is an unconditional sort call on it;
 //	ExistsCheck  the body is `if cond { return consts }` / `{ flag = const; break }`: an existence test;
 //	OrderDep     anything else (early return of data, append without sort, calls, float accumulation ...).
 //
@@ -360,27 +361,147 @@ func (c *classifier) collectOnly(stmts []ast.Stmt) bool {
 	return len(stmts) > 0
 }
 
-// sortedLater: every collected slice is the first argument of a sort call after the loop.
+// sortedLater: on every path from the loop onwards each collected slice is sorted before it is used: walking the
+// statements that follow the loop (then those that follow the enclosing statement, and so on outwards), the first
+// statement that mentions the slice - other than inside len()/cap() - must be an unconditional sort call on it.
+// A `return slice` or any other use between the loop and the sort makes the site order dependent.
 func (c *classifier) sortedLater() bool {
+	path := stmtPath(c.fn.List, c.loop)
+	if path == nil {
+		c.why = "loop not found in the function body"
+		return false
+	}
 	for dst := range c.appends {
-		found := false
-		ast.Inspect(c.fn, func(n ast.Node) bool {
-			call, ok := n.(*ast.CallExpr)
-			if !ok || call.Pos() < c.loop.End() || len(call.Args) == 0 {
-				return true
-			}
-			name := types.ExprString(call.Fun)
-			if (strings.Contains(name, "sort.") || strings.Contains(name, "Sort") || strings.Contains(name, "slices.Sort")) && types.ExprString(call.Args[0]) == dst {
-				found = true
-			}
-			return true
-		})
-		if !found {
-			c.why = "appends to " + dst + " which is not sorted afterwards"
+		if why := sortedOnEveryPath(path, dst); why != "" {
+			c.why = why
 			return false
 		}
 	}
 	return true
+}
+
+type listPos struct {
+	list []ast.Stmt
+	idx  int
+}
+
+// the chain of (statement list, index) from the outermost list down to the one that holds target
+func stmtPath(list []ast.Stmt, target ast.Stmt) []listPos {
+	for i, s := range list {
+		if s == target {
+			return []listPos{{list, i}}
+		}
+		if s.Pos() <= target.Pos() && target.End() <= s.End() {
+			var sub []listPos
+			ast.Inspect(s, func(n ast.Node) bool {
+				if sub != nil || n == nil {
+					return false
+				}
+				var inner []ast.Stmt
+				switch x := n.(type) {
+				case *ast.BlockStmt:
+					inner = x.List
+				case *ast.CaseClause:
+					inner = x.Body
+				case *ast.CommClause:
+					inner = x.Body
+				default:
+					return true
+				}
+				if n == ast.Node(s) {
+					return true
+				}
+				if p := stmtPath(inner, target); p != nil {
+					sub = p
+				}
+				return sub == nil
+			})
+			if sub != nil {
+				return append([]listPos{{list, i}}, sub...)
+			}
+			return nil
+		}
+	}
+	return nil
+}
+
+func isSortCallOn(s ast.Stmt, dst string) bool {
+	es, ok := s.(*ast.ExprStmt)
+	if !ok {
+		return false
+	}
+	call, ok := es.X.(*ast.CallExpr)
+	if !ok || len(call.Args) == 0 {
+		return false
+	}
+	name := types.ExprString(call.Fun)
+	if !(strings.Contains(name, "sort.") || strings.Contains(name, "Sort") || strings.Contains(name, "slices.Sort")) {
+		return false
+	}
+	a := call.Args[0]
+	if types.ExprString(a) == dst {
+		return true
+	}
+	// sort.Sort(byX(dst)) / sort.Sort(sort.StringSlice(dst))
+	if conv, ok := a.(*ast.CallExpr); ok && len(conv.Args) == 1 && types.ExprString(conv.Args[0]) == dst {
+		return true
+	}
+	return false
+}
+
+// does the statement mention dst outside len(dst) / cap(dst)?
+func mentions(s ast.Node, dst string) bool {
+	found := false
+	ast.Inspect(s, func(n ast.Node) bool {
+		if found {
+			return false
+		}
+		if call, ok := n.(*ast.CallExpr); ok {
+			if id, ok := call.Fun.(*ast.Ident); ok && (id.Name == "len" || id.Name == "cap") && len(call.Args) == 1 && types.ExprString(call.Args[0]) == dst {
+				return false
+			}
+		}
+		if e, ok := n.(ast.Expr); ok && types.ExprString(e) == dst {
+			found = true
+			return false
+		}
+		return true
+	})
+	return found
+}
+
+func sortedOnEveryPath(path []listPos, dst string) string {
+	for lvl := len(path) - 1; lvl >= 0; lvl-- {
+		lp := path[lvl]
+		for _, s := range lp.list[lp.idx+1:] {
+			if isSortCallOn(s, dst) {
+				return ""
+			}
+			// dst = append(dst, more...) before the sort only collects more
+			if as, ok := s.(*ast.AssignStmt); ok && as.Tok == token.ASSIGN && len(as.Lhs) == 1 && len(as.Rhs) == 1 && types.ExprString(as.Lhs[0]) == dst {
+				if call, ok := as.Rhs[0].(*ast.CallExpr); ok && types.ExprString(call.Fun) == "append" && len(call.Args) > 0 && types.ExprString(call.Args[0]) == dst {
+					more := false
+					for _, a := range call.Args[1:] {
+						more = more || mentions(a, dst)
+					}
+					if !more {
+						continue
+					}
+				}
+			}
+			if mentions(s, dst) {
+				return fmt.Sprintf("%s is used at line %d before it is sorted (a path from the loop reaches a use without the sort)", dst, fset.Position(s.Pos()).Line)
+			}
+		}
+		if lvl > 0 {
+			// leaving a loop body would run the collecting loop again: keep it simple and fail closed
+			switch path[lvl-1].list[path[lvl-1].idx].(type) {
+			case *ast.ForStmt, *ast.RangeStmt:
+				return "the collecting loop sits inside another loop and " + dst + " is not sorted inside it"
+			}
+		}
+	}
+	return "appends to " + dst + " which is not sorted afterwards"
 }
 
 // existsCheck: `if cond { return consts }` or `if cond { flag = const; break }` (and nothing else).
